@@ -2,7 +2,7 @@
 """Builds seeded/README.md from seeded/*/meta.json and selftest/RESULTS.md from selftest/RESULTS.raw.md."""
 import json, glob, os
 rows = []
-for d in sorted(glob.glob('/verif/seeded/*/')):
+for d in sorted([d for d in glob.glob('/verif/seeded/*/') if '/_' not in d]):
     m = json.load(open(os.path.join(d, 'meta.json')))
     det = m['detection']
     rows.append((os.path.basename(d.rstrip('/')), m['property'], m['needs_to_manifest'], det['check'],
@@ -23,7 +23,7 @@ with open('/verif/seeded/README.md', 'w') as f:
     # per-round tally (round recorded in detection.round, or as "round N;" at the start of the note; default 1)
     import re, collections
     tally = collections.OrderedDict()
-    for d in sorted(glob.glob('/verif/seeded/*/')):
+    for d in sorted([d for d in glob.glob('/verif/seeded/*/') if '/_' not in d]):
         det = json.load(open(os.path.join(d, 'meta.json')))['detection']
         rd = det.get('round')
         if rd is None:
